@@ -220,10 +220,12 @@ def sessionsRes : SRes → Res
 
 def sessionsP : Prog Res := .exec .selectSessions fun r => .ret (sessionsRes r)
 
-/-- `except sqlite3.IntegrityError` around INSERT, UPDATE and commit -/
-def persistExc : SRes → Kind
-  | .integrity => .duplicateSeqNo
-  | r => excOf r
+/-- the two `except` clauses around INSERT, UPDATE and commit of `persist_msg`:
+`except sqlite3.IntegrityError` → DuplicateSeqNoError (no rollback: the transaction opened by the
+implicit BEGIN stays open, empty); `except Exception` → `rollback(); raise` (fix f5b31dd) -/
+def persistFail : SRes → Prog Res
+  | .integrity => .ret (.raised .duplicateSeqNo)
+  | r => .rollback (.ret (.raised (excOf r)))
 
 def persistP (msg : Bytes) (h : Handle) (dir : Dir) : Prog Res :=
   match findSeqNo msg with
@@ -233,8 +235,8 @@ def persistP (msg : Bytes) (h : Handle) (dir : Dir) : Prog Res :=
       | .done =>
         .exec (.updateCounter dir n h.key) fun
           | .done => .commit (.ret .none)
-          | r => .ret (.raised (persistExc r))
-      | r => .ret (.raised (persistExc r))
+          | r => persistFail r
+      | r => persistFail r
 
 def setSeqNumP (h : Handle) (out inn : Option Int) : Prog Res :=
   if out.any (· ≤ 0) then .ret (.set h (some .assertion))
@@ -286,12 +288,13 @@ def Op.prog : Op → Prog Res
   | .recoverMsg h dir seq => recoverMsgP h dir seq
   | .getAll keys dir => getAllP keys dir
 
-/-- what a method does when its `commit()` raises: set_seq_num rolls back and re-raises
-(`except Exception`), the others let the exception through (whatever is pending stays pending) -/
+/-- what a method does when its `commit()` raises: every writing method rolls back and re-raises
+(`except Exception: self.conn.rollback(); raise` – set_seq_num since 493a9a7, persist_msg and
+create_or_load since f5b31dd) -/
 def Op.commitFail : Op → Kind → Prog Res
   | .setSeqNum h out inn, k =>
     .rollback (.ret (.set { h with nextOut := effOut h out, nextIn := effIn h inn } (some k)))
-  | _, k => .ret (.raised k)
+  | _, k => .rollback (.ret (.raised k))
 
 /-! ## a process: `Journaler(file)`, a list of method calls, death after `fuel` calls -/
 
